@@ -562,7 +562,7 @@ func drawSnippet(t *rapid.T, name string, e genEnv) []Op {
 			ops = append(ops, Op{K: "recget", B: b, A: a, Src: "rectok", SA: a})
 		}
 		ops = append(ops, Op{K: "recend", B: b, A: a, Src: "rectok", SA: a, S: pick(t, "pw", goodPWs...)})
-		if chance(t, "doublesubmit", 35) {
+		if chance(t, "doublesubmit", 50) {
 			// the same form posted again (double click, back button, a copy of the link on another device): from a session
 			// without a user, so that a second acceptance shows
 			b2 := rapid.IntRange(0, e.nBrows-1).Draw(t, "b2")
